@@ -13,11 +13,13 @@ arbitrary (extended) successes; del_ins_commute(+both): Delete;Insert and Insert
 the same stack, position and cost and are applicable together, so the normal form loses
 nothing; simplify_postconditions / sorted_means / reference_form: the mirror of
 simplify_repairs yields NoDup, no trailing Shift, sorted by (avoid_insert, length), no Insert
-of eof, one cost.  STATED, NOT PROVED (the property is claimed partial): search_complete_stmt
-(the bucketed search with merging returns exactly the reference set on validated conflict-free
-tables).  For the code as pinned it is REFUTED (search_complete_refuted, vm_compute on the
-DESIGN §9 witness, on a mirror of dijkstra + CPCTPlus that reproduces the implementation's
-output): CPCTPlus::shift keeps its neighbour only `if n.pstack != n_pstack`.
+of eof, one cost.  STATED, NOT PROVED (the property is claimed partial): search_complete_stmt true
+(the bucketed search with merging, as the code is now, returns exactly the reference set on
+validated conflict-free tables).  search_complete_stmt false — the code as it was pinned, whose
+CPCTPlus::shift kept its neighbour only `if n.pstack != n_pstack` — is REFUTED
+(search_complete_refuted, vm_compute on the DESIGN §9 witness, on a mirror of dijkstra + CPCTPlus
+that reproduced that implementation's output); /repo cf71a95 repaired it (`|| new_laidx > laidx`),
+SHIFT_FIXED selects the matching mirror.
 
 Decision per error of every generated (grammar, costs, avoid set, input):
  (i) directly on the implementation's list: equal cost; no trailing Shift; no duplicate;
@@ -33,8 +35,9 @@ import os
 from vlib import core, repair
 from gen import c06gen
 
-# flip after cpctplus.rs `shift` keeps the neighbour whenever a lexeme was consumed
-SHIFT_FIXED = False
+# True since /repo cf71a95: cpctplus.rs `shift` keeps the neighbour whenever a lexeme was consumed
+# (False = the code as pinned; then the KNOWN_SHIFT class applies and the mirror with the pinned `shift` is the tie)
+SHIFT_FIXED = True
 if core.SCRATCH and os.environ.get("GV_C06_SHIFT_FIXED"):      # mutation-testing aid only (never under ./check on /repo)
     SHIFT_FIXED = os.environ["GV_C06_SHIFT_FIXED"] == "1"
 
@@ -225,6 +228,7 @@ def run(ctx):
             base = {"grammar": r.src, "costs": r.costs, "cost_by_token": {r.tname(i): c for i, c in enumerate(r.cost_by_tidx)},
                     "avoid_insert": [r.tname(x) for x in r.avoid], "input": r.names(inp.toks), "input_tidxs": inp.toks,
                     "parse_at_least": r.PN, "try_parse_at_most": r.TRYMAX}
+            rest_ok = True
             for ei, e in enumerate(inp.errors):
                 seqs = e[3]
                 d0 = dict(base)
@@ -244,8 +248,10 @@ def run(ctx):
                     ctx.count("sequences_direct_checked", len(seqs))
                 m = merrs[ei] if ei < len(merrs) else None
                 if m is None:
-                    ctx.count("errors_beyond_model_cap")
-                    ctx.oblige(ok)
+                    # beyond the model's cap (an input can carry hundreds of thousands of errors when a repair does not
+                    # move the parser on): direct checks only, one obligation for all of them
+                    ctx.count("errors_beyond_model_cap(direct checks only)")
+                    rest_ok = rest_ok and ok
                     continue
                 if m.status != "ok" or (m.pos, m.st) != (e[0], e[1]):
                     ctx.count("error_configuration_not_reproduced(C05)")
@@ -348,6 +354,8 @@ def run(ctx):
                          {"grammar": r.src, "costs": cname, "input": r.names(inp.toks), "error_lexeme": e[0],
                           "impl_sequences": [pretty(r, plain(s)) for s in seqs[:6]], "reference_cost": cmin,
                           "reference_sequences": [pretty(r, x) for x in sorted(ref_set)[:6]], "differs": True})
+            if len(inp.errors) > len(merrs):
+                ctx.oblige(rest_ok)
     ctx.oblige(mirror_ok, "search mirror reproduces the implementation")
     ctx.count("errors_compared_total", compared)
     ctx.coverage["rule"] = ("grammars: the DESIGN §9 witness and separator-list variants of it, calculator, Corchuelo's, layered "
